@@ -48,6 +48,12 @@ MUTANTS = [
     m("c10-blockrow-transpose-no-T", "R7", "        return BlockColumnMatrix(tuple(block.T for block in self._blocks))", "        return BlockColumnMatrix(tuple(block for block in self._blocks))"),
     m("c10-blockrow-array-axis", "R7", "        return np.concatenate([block.array for block in self._blocks], axis=1)", "        return np.concatenate([block.array for block in self._blocks], axis=0)"),
     m("c10-blockcol-left-axis", "R7", "        return np.concatenate([block @ other for block in self._blocks], axis=0)", "        return np.concatenate([block @ other for block in self._blocks], axis=-1)"),
+    m("c10-invlu-right-trans", "R1", "            other.T,\n            not self._inv_lu_transposed,\n            check_finite=False,\n        ).T", "            other.T,\n            self._inv_lu_transposed,\n            check_finite=False,\n        ).T"),
+    m("c10-invlu-left-trans", "R1", "            other,\n            self._inv_lu_transposed,\n            check_finite=False,\n        )", "            other,\n            not self._inv_lu_transposed,\n            check_finite=False,\n        )"),
+    m("c10-densesquare-transpose-flag", "R5", "        return DenseSquareMatrix(self._array.T, lu_and_piv, not self._lu_transposed)", "        return DenseSquareMatrix(self._array.T, lu_and_piv, self._lu_transposed)"),
+    m("c10-invlu-transpose-flag", "R5", "            self._inv_lu_and_piv,\n            inv_lu_transposed=not self._inv_lu_transposed,", "            self._inv_lu_and_piv,\n            inv_lu_transposed=self._inv_lu_transposed,"),
+    m("c10-densesym-inv", "R4", "    def _construct_inv(self) -> EigendecomposedSymmetricMatrix:\n        return EigendecomposedSymmetricMatrix(self.eigvec, 1 / self.eigval)\n\n\nclass OrthogonalMatrix", "    def _construct_inv(self) -> EigendecomposedSymmetricMatrix:\n        return EigendecomposedSymmetricMatrix(self.eigvec, self.eigval)\n\n\nclass OrthogonalMatrix"),
+    m("c10-identity-scalar", "R4", "        if scalar > 0:\n            return PositiveScaledIdentityMatrix(scalar, self.shape[0])\n        return ScaledIdentityMatrix(scalar, self.shape[0])", "        if scalar > 0:\n            return PositiveScaledIdentityMatrix(scalar, self.shape[0])\n        return ScaledIdentityMatrix(-scalar, self.shape[0])"),
     m("c10-twin-assoc", None, "        return self.eigvec @ (self.diag_eigval @ (self.eigvec.T @ other))", "        return (self.eigvec @ self.diag_eigval) @ (self.eigvec.T @ other)", twin=True),
     m("c10-twin-scalar-order", None, "        return ScaledIdentityMatrix(scalar * self._scalar, self.shape[0])", "        return ScaledIdentityMatrix(self._scalar * scalar, self.shape[0])", twin=True),
     m("c10-twin-sign-position", None, "        return self.sign * (self.factor @ (self.factor.T @ other))", "        return self.factor @ (self.sign * (self.factor.T @ other))", twin=True),
